@@ -259,7 +259,7 @@ def _has_quant(t):
     return False
 
 
-def _solve(hyps, goal, timeout_ms, ematch_only=False, seed=0):
+def _solve(hyps, goal, timeout_ms, ematch_only=False, seed=0, solve_eqs=False):
     s = z3.Solver()
     s.set("timeout", timeout_ms)
     if seed:
@@ -270,7 +270,7 @@ def _solve(hyps, goal, timeout_ms, ematch_only=False, seed=0):
         s.set("smt.mbqi", False)
         # keep hypothesis equations such as `idx == off + k` as they are: solving them for the loop counter rewrites
         # `k + 1` and the goal-directed triggers S(.., k+1) stop matching (measured by the C04 contract work)
-        if os.environ.get("VERIF_SOLVE_EQS", "0") == "0":
+        if not solve_eqs and os.environ.get("VERIF_SOLVE_EQS", "0") == "0":
             s.set("smt.solve_eqs", False)
     for h in hyps:
         s.add(h)
@@ -295,6 +295,14 @@ def check(hyps, goal, timeout_ms, want_model=False, axioms=()):
     short = max(1000, min(4000, timeout_ms // 4))
     s, r = _solve(full, goal, short, ematch_only=True)
     how = "ematch"
+    if r == z3.unknown:
+        # same attempt with z3's equation solving left on (helps some contracts, hurts others)
+        try:
+            s2, r2 = _solve(full, goal, max(1000, short // 2), ematch_only=True, solve_eqs=True)
+            if r2 == z3.unsat:
+                s, r, how = s2, r2, "ematch-solve-eqs"
+        except TypeError:
+            pass
     if r == z3.unknown:
         # e-matching is sensitive to term order: two more seeds before falling back to MBQI
         for sd in (7, 23):
